@@ -109,8 +109,14 @@ def run_round(port, rng, d, rnd, nreq, inflight):
             reqs.append({"kind": rng.choice(["malformed", "malformed", "wrongtype"]), "payload": bad, "tag": tag})
         else:
             bad = json.loads(json.dumps(inst))
-            which = rng.choice(["route", "location", "segment"])
-            if which == "route":
+            # "late": the request loads (every reference resolves) and fails only inside the solver — cost rates beyond the
+            # i64 guard of the flow network (known finding F2 of C06): a fault at a later point than the loader's
+            # (seeded C18g: a lock taken after loading and poisoned by such a panic)
+            which = rng.choice(["route", "location", "segment", "late", "late"])
+            if which == "late":
+                bad["parameters"]["costs"]["serviceTrip"] = 10 ** 15
+                bad["parameters"]["costs"]["idle"] = 10 ** 15
+            elif which == "route":
                 bad["departures"][0]["route"] = tag + "no_such_route"
             elif which == "location":
                 # the origin of the route segment that the first departure segment uses
@@ -123,7 +129,7 @@ def run_round(port, rng, d, rnd, nreq, inflight):
                                 g["origin"] = tag + "nowhere"
             else:
                 bad["departures"][0]["segments"][0]["routeSegment"] = tag + "no_such_segment"
-            reqs.append({"kind": "invalid", "payload": json.dumps(bad), "tag": tag})
+            reqs.append({"kind": "invalid-late" if which == "late" else "invalid", "payload": json.dumps(bad), "tag": tag})
     sem = threading.Semaphore(inflight)
     results = [None] * len(reqs)
 
